@@ -317,56 +317,65 @@ Definition old_value (old : option info) (k : str) (given : val) : val :=
        | None => given
        end.
 
+(* the install dir: trailing slashes removed; (the block so far, the install dir used below) *)
+Definition af_dir (installdir : val) : info * val :=
+  match installdir with
+  | Some (c :: x) => let d := rstrip_slash (c :: x) in ([(k_productDir, Some d)], Some d)
+  | _ => ([], installdir)
+  end.
+
+(* the table file: an absolute one under the install dir is made relative to it and split
+   into ups dir and base name; (the block so far, the ups dir used below) *)
+Definition af_table (i1 : info) (inst upsdir tablefile : val) : info * val :=
+  let instS := match inst with Some d => d | None => [] end in
+  match tablefile with
+  | Some (c :: x) =>
+      let t := c :: x in
+      if truthy inst && is_real inst && isabs t && starts_with (instS ++ [c_slash]) t then
+        let t1 := after (length instS) t in
+        if negb (match upsdir with Some u => str_eqb u s_none | None => false end) then
+          match dirname t1 with
+          | [] => (i1 ++ [(k_table_file, Some t1)], Some s_none)
+          | u => (i1 ++ [(k_table_file, Some (basename t1))], Some u)
+          end
+        else (i1 ++ [(k_table_file, Some t1)], upsdir)
+      else (i1 ++ [(k_table_file, Some t)], upsdir)
+  | _ => (i1, upsdir)
+  end.
+
+Definition af_ups (inst upsdir1 : val) : val :=
+  let instS := match inst with Some d => d | None => [] end in
+  match upsdir1 with
+  | Some (c :: x) =>
+      let u := rstrip_slash (c :: x) in
+      if truthy inst && is_real (Some u) && isabs u && starts_with (instS ++ [c_slash]) u
+      then Some (after (length instS) u) else Some u
+  | Some [] => Some []
+  | None => Some s_none
+  end.
+
+(* who declared, who modifies *)
+Definition af_meta (who now : str) (old : option info) (i3 : info) : info :=
+  let keep k := match old with
+                | Some i => match alookup k i with Some v => [(k, v)] | None => [] end
+                | None => []
+                end in
+  let i4 := i3 ++ keep k_declarer ++ keep k_declared in
+  if amem k_declarer i4 || amem k_declared i4
+  then i4 ++ [(k_modifier, Some who); (k_modified, Some now)]
+  else i4 ++ [(k_declarer, Some who); (k_declared, Some now)].
+
 Definition add_flavor (who now : str) (flavor : str) (installdir tablefile upsdir : val) (r : vfile)
   : vfile :=
   let old := alookup flavor (vf_info r) in
   let installdir := old_value old k_productDir installdir in
   let upsdir := old_value old k_ups_dir upsdir in
   let tablefile := old_value old k_table_file tablefile in
-  (* install dir *)
-  let '(i1, inst) :=
-    match installdir with
-    | Some (c :: x) => let d := rstrip_slash (c :: x) in ([(k_productDir, Some d)], Some d)
-    | _ => ([], installdir)
-    end in
-  let instS := match inst with Some d => d | None => [] end in
-  (* table file *)
-  let '(i2, upsdir1) :=
-    match tablefile with
-    | Some (c :: x) =>
-        let t := c :: x in
-        if truthy inst && is_real inst && isabs t && starts_with (instS ++ [c_slash]) t then
-          let t1 := after (length instS) t in
-          if negb (match upsdir with Some u => str_eqb u s_none | None => false end) then
-            match dirname t1 with
-            | [] => (i1 ++ [(k_table_file, Some t1)], Some s_none)
-            | u => (i1 ++ [(k_table_file, Some (basename t1))], Some u)
-            end
-          else (i1 ++ [(k_table_file, Some t1)], upsdir)
-        else (i1 ++ [(k_table_file, Some t)], upsdir)
-    | _ => (i1, upsdir)
-    end in
-  (* ups dir *)
-  let upsdir2 :=
-    match upsdir1 with
-    | Some (c :: x) =>
-        let u := rstrip_slash (c :: x) in
-        if truthy inst && is_real (Some u) && isabs u && starts_with (instS ++ [c_slash]) u
-        then Some (after (length instS) u) else Some u
-    | Some [] => Some []
-    | None => Some s_none
-    end in
-  let i3 := aset k_ups_dir upsdir2 i2 in
-  (* who declared, who modifies *)
-  let keep k := match old with
-                | Some i => match alookup k i with Some v => [(k, v)] | None => [] end
-                | None => []
-                end in
-  let i4 := i3 ++ keep k_declarer ++ keep k_declared in
-  let i5 := if amem k_declarer i4 || amem k_declared i4
-            then i4 ++ [(k_modifier, Some who); (k_modified, Some now)]
-            else i4 ++ [(k_declarer, Some who); (k_declared, Some now)] in
-  {| vf_name := vf_name r; vf_version := vf_version r; vf_info := aset flavor i5 (vf_info r) |}.
+  let d := af_dir installdir in
+  let t := af_table (fst d) (snd d) upsdir tablefile in
+  let i3 := aset k_ups_dir (af_ups (snd d) (snd t)) (fst t) in
+  {| vf_name := vf_name r; vf_version := vf_version r;
+     vf_info := aset flavor (af_meta who now old i3) (vf_info r) |}.
 
 Definition vf_remove_flavor (flavor : str) (r : vfile) : vfile :=
   {| vf_name := vf_name r; vf_version := vf_version r; vf_info := aremove flavor (vf_info r) |}.
